@@ -284,7 +284,9 @@ def malformed_streams(rng, tier):
         res.append((1).to_bytes(4, "little") + b"\x00\x01" + nc(1, w) + txin + nc(1, w) + txout + nc(1, w) + nc(1, w) + b"w" + (0).to_bytes(4, "little"))
         res.append((1).to_bytes(4, "little") + nc(0, w) + nc(0, w) + (0).to_bytes(4, "little"))
     # huge counts / lengths
-    for cnt in (b"\xff" + b"\xff" * 8, b"\xfe\xff\xff\xff\xff", b"\xfd\xff\xff", b"\xfc"):
+    # (a declared byte-string length >= 2^63 makes BytesIO.read raise OverflowError)
+    for cnt in (b"\xff" + b"\xff" * 8, b"\xff" + (1 << 63).to_bytes(8, "little"), b"\xff" + ((1 << 63) - 1).to_bytes(8, "little"),
+                b"\xfe\xff\xff\xff\xff", b"\xfd\xff\xff", b"\xfc"):
         res.append((1).to_bytes(4, "little") + cnt + h1 + (0).to_bytes(4, "little") + b"\x00" + (0).to_bytes(4, "little"))
         res.append((1).to_bytes(4, "little") + b"\x01" + h1 + (0).to_bytes(4, "little") + cnt + b"abc" + (0).to_bytes(4, "little"))
         res.append((1).to_bytes(4, "little") + b"\x00\x01\x01" + h1 + (0).to_bytes(4, "little") + b"\x00" + (0).to_bytes(4, "little") + b"\x00" + cnt + b"\x01a\x00")
@@ -564,7 +566,8 @@ def model_cases(rng, tier):
     for v in vals:
         yield Case("stream_satoshi_int %s" % arg(v), (lambda v=v: call(i_stream_int, v)))
     for pre in [b"", b"\x00", b"\xfc", b"\xfd", b"\xfd\x01", b"\xfd\x01\x02", b"\xfe\x01\x02\x03", b"\xfe\x01\x02\x03\x04", b"\xff" + bytes(7),
-                b"\xff" + bytes(range(8)), b"\xfd\xfc\x00", b"\xfe\xff\xff\x00\x00", b"\xff\xff\xff\xff\xff\x00\x00\x00\x00"]:
+                b"\xff" + bytes(range(8)), b"\xfd\xfc\x00", b"\xfe\xff\xff\x00\x00", b"\xff\xff\xff\xff\xff\x00\x00\x00\x00",
+                b"\xff" + (1 << 63).to_bytes(8, "little"), b"\xff" + ((1 << 63) - 1).to_bytes(8, "little"), b"\xff" + b"\xff" * 8]:
         for tail in (b"", b"zz"):
             yield Case("parse_satoshi_int N %s" % arg(pre + tail), (lambda b=pre + tail: call(i_parse_int, None, b)))
             yield Case("parse_satoshi_string %s" % arg(pre + tail), (lambda b=pre + tail: call(i_parse_str, b)))
